@@ -543,8 +543,12 @@ def mon_merged(scn, run):
         for r in b["roots"]:
             if r not in top_devs or r in a["roots"]:
                 continue
-            asked_cb = any(u["comp"] == r and u["n"] < a["n"] and u.get("call_at") == b["time"] for u in ups) and \
-                not any(u["comp"] == r and u["n"] < a["n"] and u.get("call_at") not in (None, b["time"]) and u["n"] > max([x["n"] for x in ups if x["comp"] == r and x["n"] < a["n"] and x.get("call_at") == b["time"]], default=0) for u in ups)
+            # the callback request of r that is pending when tick `a` starts: its latest answer (before `a`) that asked
+            # for one - an answer without a request keeps the older one - unless r has been a root of a tick since
+            # (which consumes the request)
+            reqs = [u for u in ups if u["comp"] == r and u["n"] < a["n"] and u.get("call_at") is not None]
+            asked_cb = bool(reqs) and reqs[-1]["call_at"] == b["time"] and \
+                not any(reqs[-1]["n"] < c2["n"] < a["n"] and r in c2["roots"] for c2 in calls)
             asked_int = any(x["comp"] == r and x["step"] <= a["step"] - 2 for x in raises) and not any(c2["n"] < a["n"] and r in c2["roots"] and c2["n"] > max([x["n"] for x in raises if x["comp"] == r and x["n"] < a["n"]], default=0) for c2 in calls)
             if asked_cb or asked_int:
                 out.append(V("same-time-not-merged", f"two master ticks @{a['time']}: roots {a['roots']} then {b['roots']}, although {r} was already due when the first one started", comp=r))
